@@ -31,8 +31,26 @@ def build(cfg, values=None):
         num = 1 if model == 'plate_w' else 3
         size0 = num * m * n
         if variant == 'full':
-            K = p.calc_k0(silent=True).todict()
-            H = symmetric_completion(oracle_k0(ctx, p, model, s=s))
+            if cfg.get('offset_history'):
+                # the reference surface is re-defined between two evaluations of the same panel: k0 follows the CURRENT offset
+                # (laminate of the shifted reference surface: A, B + d A, D + 2 d B + d^2 A -- the relation C01 decides)
+                p.offset = ctx.V('d_before')
+                p.calc_k0(silent=True)
+                d_ = ctx.V('d')
+                p.offset = d_
+                K = p.calc_k0(silent=True).todict()
+                base = p._verif_lam.ABD
+                sh = base.copy()
+                for i in range(3):
+                    for j in range(3):
+                        sh[i, 3 + j] = sh[3 + j, i] = base[i, 3 + j] + d_ * base[i, j]
+                        sh[3 + i, 3 + j] = base[3 + i, 3 + j] + 2 * d_ * base[i, 3 + j] + d_ * d_ * base[i, j]
+                p._verif_lam.ABD = sh
+                H = symmetric_completion(oracle_k0(ctx, p, model, s=s))
+                p._verif_lam.ABD = base
+            else:
+                K = p.calc_k0(silent=True).todict()
+                H = symmetric_completion(oracle_k0(ctx, p, model, s=s))
         elif variant == 'offset':
             off = cfg.get('off', 3)
             size = size0 + off + 2
@@ -111,6 +129,7 @@ def configs(tier, seed):
         mm, nn = (2, 2) if quick else (3, 3)
         if model == 'kpanel':
             mm, nn = (2, 1) if quick else (2, 2)
+        out.append({'model': model, 'm': mm, 'n': nn, 'variant': 'full', 'offset_history': True, 'group': 'k0-after-offset-redefinition:%s' % model, 's': 2})
         out.append({'model': model, 'm': mm, 'n': nn, 'variant': 'y1y2', 'group': 'k0y1y2:%s' % model, 's': 2})
         out.append({'model': model, 'm': 2, 'n': 2, 'variant': 'offset', 'off': 3 + seed % 4, 'group': 'placement:%s' % model, 's': 2})
         out.append({'model': model, 'm': 2, 'n': 2 if model != 'kpanel' else 1, 'variant': 'preload', 'group': 'preload:%s' % model, 's': 2})
